@@ -18,12 +18,12 @@ CTX_VALUES = ["<absent>", None, False, True, 0, 1, 2.9, 3, -1, float("nan"), flo
               {"k": True}, {"k": 0}, {"tos": 1}, 10 ** 400, 60, 60.9, 61]
 TYPES = {
     "require_mfa": ("mfa", [None]),
-    "require_level": ("auth_level", [{"min": 2}, {"min": 2.7}, {"min": "2"}, {"min": "x"}, {"min": None}, {"min": True}, {}, None, "bad", [1], {"min": [2]}, {"min": float("nan")}]),
+    "require_level": ("auth_level", [{"min": 10 ** 400}, {"min": -(10 ** 400)}, {"min": 2}, {"min": 2.7}, {"min": "2"}, {"min": "x"}, {"min": None}, {"min": True}, {}, None, "bad", [1], {"min": [2]}, {"min": float("nan")}]),
     "http_challenge": (None, [{"scheme": "Basic"}, {"scheme": "BEARER"}, {"scheme": "digest"}, {"scheme": "ntlm"}, {}, None, {"scheme": None}, {"scheme": 5}, "Basic", ["Basic"]]),
     "require_consent": ("consent", [None, {}, {"key": "k"}, {"key": "tos"}, {"key": None}, {"key": 1}, {"key": ["k"]}, {"key": {"a": 1}}]),
     "require_terms_accept": ("tos_accepted", [None]),
     "require_captcha": ("captcha_passed", [None]),
-    "require_reauth": ("reauth_age_seconds", [{"max_age": 60}, {"max_age": 60.5}, {"max_age": "60"}, {"max_age": "oops"}, {"max_age": None}, {}, None, {"max_age": -1}, {"max_age": 0}]),
+    "require_reauth": ("reauth_age_seconds", [{"max_age": 10 ** 400}, {"max_age": 60}, {"max_age": 60.5}, {"max_age": "60"}, {"max_age": "oops"}, {"max_age": None}, {}, None, {"max_age": -1}, {"max_age": 0}]),
     "require_age_verified": ("age_verified", [None]),
     "require_geo": ("geo", [None, {"allow": ["EU"]}]),
 }
@@ -161,8 +161,8 @@ def run_cases(run: lib.Run, audit: dict):
                                                           "obligations": [{"type": "http_challenge", "on": "deny", "attrs": {"scheme": "Basic"}}]}]}
     cases.append((deny_pol, reqf({}), {"strict": False}))
     cases.append((deny_pol, reqf({}), {"strict": False, "checker": ["custom", True, "x"]}))
-    flav = ["sync", "async", "sync-collab-async", "async-collab-async"]
-    res = gc.run_batch(cases, consts, flavour_of=lambda i: flav[i % 4])
+    flav = ["sync", "async", "sync-collab-async", "async-collab-async", "sync-collab-awaitable", "async-collab-awaitable"]
+    res = gc.run_batch(cases, consts, flavour_of=lambda i: flav[i % 6])
     for pol, req, cfg, out, model, extra in res:
         run.count("guard:" + gc.outcome_class(out))
         run.case([pol, req, cfg], "ok" in out and out["ok"]["reason"] == "obligation_failed")
